@@ -20,7 +20,7 @@ from .. import cli_corr as cc, common, gen
 from ..common import Result, Violation
 
 META = dict(
-    level='Lean theorems over the regenerated CLI model (Gen/Cli.lean: parse table by introspection of the real argparse parser, run_date/run_preprocess flattened from their ASTs), for every argument namespace: `tsdate preprocess` passes every option to preprocess_ts under its name (full); `tsdate date` errors explicitly, or passes every option under the documented keyword, or the option was not given - for all options except -e under variational_gamma (partial; the negation of the full statement is proved: -e is silently ignored there, a known finding); successful runs load args.tree_sequence, call the right function once and dump to args.output; every keyword passed is a parameter of the API function reached (signatures regenerated from core.py/util.py); boolean converters map False/false/0/no to False and True/true/1/yes to True. Tie: translator every run + exhaustive lattice (8192 date + 1568 preprocess command lines) of real tsdate_main runs with recorded API calls vs the Lean interpreter; real CLI-vs-API file comparison on a sample. Outside: argparse itself, numeric conversion of option values, tskit.load failure path.',
+    level='Lean theorems over the regenerated CLI model (Gen/Cli.lean: parse table by introspection of the real argparse parser, run_date/run_preprocess flattened from their ASTs), for every argument namespace: `tsdate preprocess` passes every option to preprocess_ts under its name (full); `tsdate date` errors explicitly, or passes every option under the documented keyword, or the option was not given - for all options except -e under variational_gamma (partial; the negation of the full statement is proved: -e is silently ignored there, a known finding that stays because tests/test_cli.py of the repository expects `--epsilon 1e-3` to succeed under the default method); successful runs load args.tree_sequence, call the right function once and dump to args.output; every keyword passed is a parameter of the API function reached (signatures regenerated from core.py/util.py); boolean converters map False/false/0/no to False and True/true/1/yes to True. Tie: translator every run + exhaustive lattice (8192 date + 1568 preprocess command lines) of real tsdate_main runs with recorded API calls vs the Lean interpreter; real CLI-vs-API file comparison on a sample. Outside: argparse itself, numeric conversion of option values, tskit.load failure path.',
     note='Lean kernel + {propext, Classical.choice, Quot.sound}; translator translate/cli.py (~300 lines) trusted but cross-checked by executing the generated program against the real runner on the whole lattice; argparse by contract',
     technique='source-to-Lean translation of the runners + generic soundness theorem of a decidable static check + exhaustive correspondence over the option lattice',
     ref='§3 C34',
@@ -200,9 +200,13 @@ def date_cases(rng, info, n_random):
     return fixed
 
 
+MBL_DEFAULT = [None]
+
+
 def run_date_files(ctx, res, stats):
     rng = ctx.rng(2)
     import tskit
+    MBL_DEFAULT[0] = cc.parse_only(["date", "a", "b"])["min_branch_length"]
     d = cc.workdir()
     n_inputs = ctx.n(2, 12)
     for k in range(n_inputs):
@@ -214,9 +218,10 @@ def run_date_files(ctx, res, stats):
         cases = date_cases(rng, info, ctx.n(12, 60)) if k == 0 else date_cases(rng, info, ctx.n(6, 40))[-ctx.n(6, 40):]
         for mf, opts in cases:
             argv = ["date", inp, outp] + mf
-            # "the same option values": mutation_rate is a required keyword of date() (None when not given) and the
-            # value of the -p flag when it is absent is False
-            kwargs = {"mutation_rate": None, "progress": False}
+            # "the same option values": mutation_rate is a required keyword of date() (None when not given), the value
+            # of the -p flag when it is absent is False, and the value of -b when it is absent is the parser's default
+            # (min_branch_length is written to the provenance record since adc1393, so None vs 1e-8 would show there)
+            kwargs = {"mutation_rate": None, "progress": False, "min_branch_length": MBL_DEFAULT[0]}
             given = {}
             for o in opts:
                 argv += [o[0]] + ([repr(o[1]) if not isinstance(o[1], str) else o[1]] if len(o) > 1 else [])
